@@ -574,4 +574,71 @@ mod verif_in_ctx_pkt {
     pub(crate) fn step_pkt_unexpected_connack() {
         step_unexpected_body(1);
     }
+
+    // ------------------------------------------------------------------ teardown
+    fn teardown_body(reset_only: bool) {
+        let (sender, receiver) = mpsc::unbounded::<ContextMessage>();
+        // a request that was queued but never handled
+        let (sq, mut rq) = oneshot::channel::<Result<(), MqttError>>();
+        assert!(sender.unbounded_send(ContextMessage::FireAndForget(FireAndForget { packet: BytesMut::new(), response_channel: sq })).is_ok());
+        // a request that was sent and waits for its acknowledgement, a registered stream, a stored packet
+        let (s0, mut rcv0) = oneshot::channel::<Result<RxPacket, MqttError>>();
+        let (st, mut rs) = mpsc::unbounded::<RxPacket>();
+        let mut session = Session { awaiting_ack: VecDeque::new(), subscriptions: VecDeque::new(), retrasmit_queue: VecDeque::new() };
+        session.awaiting_ack.push_back((aid(PUBACK, 7), s0));
+        session.subscriptions.push_back((5, st));
+        static STORED: [u8; 4] = [0x3a, 2, 0, 7];
+        session.retrasmit_queue.push_back((aid(PUBACK, 7), Bytes::from_static(&STORED)));
+        let mut ctx: CtxR = Context {
+            rx: Some(RxPacketStream::from(NoRx)),
+            tx: Some(TxPacketStream::from(RecTx::new())),
+            message_queue: receiver,
+            session,
+            connection: Connection { disconnection_timestamp: None, session_expiry_interval: 0, remote_receive_maximum: 10, remote_max_packet_size: None, send_quota: 9 },
+        };
+        if reset_only {
+            CtxR::reset_session(&mut ctx.session);
+            assert!(ctx.session.awaiting_ack.is_empty() && ctx.session.subscriptions.is_empty() && ctx.session.retrasmit_queue.is_empty(), "an expired session forgets everything");
+            core::mem::forget(ctx);
+        } else {
+            drop(ctx);
+        }
+        match rcv0.try_recv() {
+            Err(_) => {}
+            _ => panic!("an operation waiting for its acknowledgement is released (Canceled -> ContextExited), it does not hang"),
+        }
+        match rs.try_next() {
+            Ok(None) => {}
+            _ => panic!("a subscription stream ends"),
+        }
+        if !reset_only {
+            match rq.try_recv() {
+                Err(_) => {}
+                _ => panic!("a request still in the queue is released as well"),
+            }
+            let (sq2, rq2) = oneshot::channel::<Result<(), MqttError>>();
+            assert!(sender.unbounded_send(ContextMessage::FireAndForget(FireAndForget { packet: BytesMut::new(), response_channel: sq2 })).is_err(), "an operation started afterwards cannot reach the context (-> ContextExited)");
+            core::mem::forget(rq2);
+        }
+        kani::cover!(true, "reached the end");
+        core::mem::forget(sender);
+        core::mem::forget(rcv0);
+        core::mem::forget(rs);
+        core::mem::forget(rq);
+    }
+    //@ h name=ctx_drop_releases props=C14 tier=quick cap=small to=900
+    //@ h name=ctx_reset_releases props=C14,C17 tier=quick cap=small to=900
+    //@ claim: dropping the Context (ctx_drop) releases every sender it owns: the waiter of an operation awaiting its acknowledgement and the response channel of a request still sitting in the message queue are dropped (their futures complete with Canceled, which maps to ContextExited, see ctx_gone_mapping), registered subscription streams end, and a request issued afterwards can no longer be queued; reset_session (what run() does for an expired session) releases the waiters and streams of the abandoned session and empties the retransmit queue
+    //@ bounds: one queued request, one waiter, one stream registration, one stored packet; channel = /verif/models/futures-channel
+    //@ funcs: drop glue of Context / Session, Context::reset_session
+    #[kani::proof]
+    #[kani::unwind(4)]
+    pub(crate) fn ctx_drop_releases() {
+        teardown_body(false);
+    }
+    #[kani::proof]
+    #[kani::unwind(4)]
+    pub(crate) fn ctx_reset_releases() {
+        teardown_body(true);
+    }
 }
